@@ -506,6 +506,9 @@ class Check:
     # -- violations
     def report(self, key, detail, case=None):
         full = key if key.startswith(self.pid + ":") else f"{self.pid}:{key}"
+        if isinstance(detail, dict) and "replay_case" in detail:
+            detail = dict(detail)
+            case = detail.pop("replay_case")
         if full in self.open_keys:
             self.known_hit[full] = self.known_hit.get(full, 0) + 1
             return False
